@@ -62,6 +62,7 @@ type unsupported struct{ msg string }
 func (u unsupported) Error() string { return u.msg }
 
 type FV struct {
+	curResults []Term // values being returned, while the ghost statements anchored at a return run
 	funcConstNames []string
 	funcCands map[types.Object][]funcCand // locals that only ever hold known functions
 	w     *World
